@@ -1331,3 +1331,14 @@ Lemma dot_source_lines :
     HOLE ++ skipn 2 D_nodes; HOLE ++ HOLE ++ HOLE; HOLE ++ HOLE ++ HOLE; [];
     HOLE ++ skipn 2 D_edges; HOLE ++ HOLE ++ D_arrow ++ HOLE ++ HOLE; [125%Z] ].
 Proof. vm_compute. split; reflexivity. Qed.
+
+(* ------------------------------------------------ the empty tree *)
+(* whatever history led to it (clear(), remove_children() on the root, a filter
+   that keeps nothing): an empty tree exports its root alone *)
+Lemma empty_tree_exports id i fx tn u a isroot :
+  rdf_of_tree fx tn (T id i []) = [TName RSys tn] /\
+  dot_edges u a (T id i []) = [] /\
+  mer_edges u a (T id i []) = [] /\
+  map dkey (dot_nodes true u a isroot tn (T id i [])) = (if a then [key u (T id i [])] else []) /\
+  map (fun d : mnode => fst (fst d)) (mer_nodes u a (T id i [])) = (if a then [0] else []).
+Proof. destruct u, a; repeat split; reflexivity. Qed.
